@@ -7,6 +7,8 @@ import OG.C09.Meaning
 
 namespace OG.C09
 
+variable (ty : ColType)
+
 instance (c : Chunk) : Decidable (Chunk.WF c) := by unfold Chunk.WF; infer_instance
 instance (d : SeriesData) : Decidable (d.WF) := by unfold SeriesData.WF; infer_instance
 
@@ -27,24 +29,24 @@ theorem seq_monoid : (∀ a : Stats, Stats.seq {} a = a) ∧ (∀ a : Stats, a.s
 /-- ⊕ (`AggregateData`: `countMeta`, `sumMeta`, `minMeta`, `maxMeta`, `firstMeta`, `lastMeta`
 with their tie-breaking on equal values / times) is a commutative monoid: the answer does not
 depend on the order in which containers, files or series are combined. -/
-theorem merge_comm_monoid : (∀ a : Stats, Stats.merge {} a = a) ∧ (∀ a : Stats, a.merge {} = a) ∧
-    (∀ a b c : Stats, (a.merge b).merge c = a.merge (b.merge c)) ∧ ∀ a b : Stats, a.merge b = b.merge a :=
-  ⟨Stats.merge_empty_left, Stats.merge_empty_right, Stats.merge_assoc, Stats.merge_comm⟩
+theorem merge_comm_monoid : (∀ a : Stats, Stats.merge ty {} a = a) ∧ (∀ a : Stats, a.merge ty {} = a) ∧
+    (∀ a b c : Stats, (a.merge ty b).merge ty c = a.merge ty (b.merge ty c)) ∧ ∀ a b : Stats, a.merge ty b = b.merge ty a :=
+  ⟨Stats.merge_empty_left ty, Stats.merge_empty_right ty, Stats.merge_assoc ty, Stats.merge_comm ty⟩
 
 /-- **any interleaving** (merge of out-of-order files, compaction): when the time-sorted rows
 `m` are a rearrangement of the rows of two sorted containers, the statistics rebuilt from `m`
 are the record merge of the two containers' statistics. -/
 theorem stats_homomorphism_merge {a b m : List Row} (ha : StrictAsc a) (hb : StrictAsc b)
     (hm : StrictAsc m) (hp : m.Perm (a ++ b)) :
-    buildStats m = (buildStats a).merge (buildStats b) := by
-  rw [buildStats_eq_mergeOf hm, buildStats_eq_mergeOf ha, buildStats_eq_mergeOf hb, mergeOf_perm hp, mergeOf_append]
+    buildStats m = (buildStats a).merge ty (buildStats b) := by
+  rw [buildStats_eq_mergeOf ty hm, buildStats_eq_mergeOf ty ha, buildStats_eq_mergeOf ty hb, mergeOf_perm ty hp, mergeOf_append]
 
 example : buildStats ([⟨1, some 5⟩, ⟨2, none⟩, ⟨3, some 2⟩] ++ [⟨4, some 2⟩, ⟨6, some 9⟩])
     = { count := 4, sum := 18, min := some (2, 3), max := some (9, 6), first := some (1, 5), last := some (6, 9) } := by
   decide
 example : buildStats [⟨0, some 2⟩, ⟨1, some 5⟩, ⟨3, some 2⟩, ⟨4, some 5⟩]
-    = (buildStats [⟨1, some 5⟩, ⟨3, some 2⟩]).merge (buildStats [⟨0, some 2⟩, ⟨4, some 5⟩]) :=
-  stats_homomorphism_merge (by decide) (by decide) (by decide) (by decide)
+    = (buildStats [⟨1, some 5⟩, ⟨3, some 2⟩]).merge ty (buildStats [⟨0, some 2⟩, ⟨4, some 5⟩]) :=
+  stats_homomorphism_merge ty (by decide) (by decide) (by decide) (by decide)
 
 /-! ## 2. one chunk, every range -/
 
@@ -52,16 +54,16 @@ example : buildStats [⟨0, some 2⟩, ⟨1, some 5⟩, ⟨3, some 2⟩, ⟨4, s
 statistics when `allRowsInRange`, scans of the overlapping segments otherwise, first / last
 through the `FirstLastReader` shortcuts — is the statistics record of exactly the rows of the
 chunk that lie in the range. -/
-theorem chunkStats_eq_rows {c : Chunk} (h : Chunk.WF c) (lo hi : Int) :
-    chunkStats lo hi c = buildStats (c.flatten.filter (inRange lo hi)) := chunkStats_eq h lo hi
+theorem chunkStats_eq_rows {c : Chunk} (h : Chunk.WF c) (ty : ColType) (lo hi : Int) :
+    chunkStats ty lo hi c = buildStats (c.flatten.filter (inRange lo hi)) := chunkStats_eq h ty lo hi
 
 def exChunk : Chunk := [[⟨1, some 5⟩, ⟨2, none⟩, ⟨3, some 2⟩], [⟨4, some 2⟩, ⟨6, some 9⟩], [⟨7, none⟩, ⟨9, some 1⟩]]
 example : Chunk.WF exChunk := by decide
 -- range ends inside segments, on their edges, outside the chunk, empty range
-example : (chunkStats 2 8 exChunk).count = 3 ∧ (chunkStats 2 8 exChunk).first = some (3, 2) := by decide
-example : chunkStats 1 9 exChunk = storedStats exChunk := by decide
-example : chunkStats 4 6 exChunk = buildStats [⟨4, some 2⟩, ⟨6, some 9⟩] := by decide
-example : chunkStats 10 20 exChunk = {} ∧ chunkStats 5 4 exChunk = {} := by decide
+example : (chunkStats .int 2 8 exChunk).count = 3 ∧ (chunkStats .int 2 8 exChunk).first = some (3, 2) := by decide
+example : chunkStats .float 1 9 exChunk = storedStats exChunk := by decide
+example : chunkStats .bool 4 6 exChunk = buildStats [⟨4, some 2⟩, ⟨6, some 9⟩] := by decide
+example : chunkStats .string 10 20 exChunk = {} ∧ chunkStats .int 5 4 exChunk = {} := by decide
 
 /-! ## 3. one series: memtable + ordered + out-of-order files -/
 
@@ -81,7 +83,7 @@ def aggViaStats_eq_aggRows_full : Prop :=
   ∀ d : SeriesData, d.WF → ∀ lo hi : Int, aggViaStats lo hi d = aggRows lo hi d
 
 /-- a timestamp rewritten after its flush: the memtable and a file both hold t = 1. -/
-def crossGen : SeriesData := ⟨[⟨1, some 5⟩, ⟨2, some 1⟩], [[[⟨0, some 7⟩, ⟨1, some 3⟩]]]⟩
+def crossGen : SeriesData := ⟨.int, [⟨1, some 5⟩, ⟨2, some 1⟩], [[[⟨0, some 7⟩, ⟨1, some 3⟩]]]⟩
 
 /-- … does not hold: the documented trade-off of the un-hinted path (the key written in two
 flush generations is counted twice: count 4 for 3 rows, sum 16 for 13). -/
@@ -103,7 +105,7 @@ theorem double_count_only_cross_generation {d : SeriesData} (hw : d.WF) {lo hi :
   ⟨fun hk => h (aggViaStats_eq_aggRows_partial hw hk), fun hk => h (aggViaStats_eq_aggRows_noKeyTwice hw hk lo hi)⟩
 
 def exData : SeriesData :=
-  ⟨[⟨10, some 1⟩, ⟨11, none⟩, ⟨12, some 1⟩], [[[⟨0, some 4⟩, ⟨5, some 2⟩]], exChunk]⟩
+  ⟨.float, [⟨10, some 1⟩, ⟨11, none⟩, ⟨12, some 1⟩], [[[⟨0, some 4⟩, ⟨5, some 2⟩]], exChunk]⟩
 example : exData.WF ∧ NoKeyTwice exData := by decide
 example : aggViaStats 2 10 exData = aggRows 2 10 exData ∧ (aggRows 2 10 exData).count = 6 ∧
     (aggRows 2 10 exData).min = some (1, 9) := by decide
@@ -168,24 +170,68 @@ example : answer { exEligible with hint := Hint.ExactStatisticQuery } 0 9 crossG
     = aggRows 0 9 crossGen := by decide
 example : answer exEligible 0 9 crossGen (viewRows 0 9 crossGen) ≠ aggRows 0 9 crossGen := by decide
 
+/-! ## 4b. time buckets and descending scans (the row path) -/
+
+/-- `GROUP BY time(w)`: every time lies in exactly one bucket, buckets are aligned to the epoch. -/
+theorem bucket_alignment (w t : Int) (hw : 0 < w) :
+    bucketStart w t ≤ t ∧ t < bucketStart w t + w ∧ bucketStart w t % w = 0 ∧
+    ∀ b : Int, b % w = 0 → b ≤ t → t < b + w → b = bucketStart w t := by
+  refine ⟨bucketStart_le w t hw, lt_bucketStart_add w t hw, bucketStart_aligned w t, ?_⟩
+  intro b hb h1 h2
+  have h0 := bucketStart_aligned w t
+  have hl := bucketStart_le w t hw
+  have hu := lt_bucketStart_add w t hw
+  generalize bucketStart w t = b0 at *
+  by_cases hge : b0 ≤ b
+  · have hx : (b - b0) % w = 0 := by rw [Int.sub_emod, hb, h0]; simp
+    rw [Int.emod_eq_of_lt (by omega) (by omega)] at hx; omega
+  · have hx : (b0 - b) % w = 0 := by rw [Int.sub_emod, hb, h0]; simp
+    rw [Int.emod_eq_of_lt (by omega) (by omega)] at hx; omega
+
+example : bucketStart 30 1700000047 = 1700000040 ∧ bucketStart 7 (-3) = -7 := by decide
+
+/-- `ORDER BY time DESC`: scanning the rows newest first and exchanging first / last at the end
+answers the same count, sum, first, last and the same extreme *values* as the ascending scan
+(the time reported for an extreme value that occurs several times is the one scanned first:
+it is the only thing that depends on the direction). -/
+theorem desc_scan_agrees (l : List Row) :
+    (buildStatsDesc l).count = (buildStats l).count ∧ (buildStatsDesc l).sum = (buildStats l).sum ∧
+    (buildStatsDesc l).first = (buildStats l).first ∧ (buildStatsDesc l).last = (buildStats l).last ∧
+    (buildStatsDesc l).min.map (·.1) = (buildStats l).min.map (·.1) ∧
+    (buildStatsDesc l).max.map (·.1) = (buildStats l).max.map (·.1) := by
+  have hp : mergeOf .int l.reverse = mergeOf .int l := mergeOf_perm .int (List.reverse_perm l)
+  have hc := buildStats_count_sum .int l.reverse
+  have hc' := buildStats_count_sum .int l
+  have hv := buildStats_extreme_values .int l.reverse
+  have hv' := buildStats_extreme_values .int l
+  simp only [buildStatsDesc]
+  refine ⟨?_, ?_, buildStats_reverse_last l, buildStats_reverse_first l, ?_, ?_⟩
+  · rw [hc.1, hp, hc'.1]
+  · rw [hc.2, hp, hc'.2]
+  · rw [hv.1, hp, hv'.1]
+  · rw [hv.2, hp, hv'.2]
+
+example : (buildStats [⟨1, some 2⟩, ⟨2, some 2⟩]).min = some (2, 1) ∧
+    (buildStatsDesc [⟨1, some 2⟩, ⟨2, some 2⟩]).min = some (2, 2) := by decide
+
 /-! ## 5. what the answer means -/
 
 /-- the row-level answer of one series is count / sum / extreme points of the rows of the
 plain select (stated for any order of rows, hence also for a group of series). -/
 theorem stats_meaning (l : List Row) :
-    (mergeOf l).count = (points l).length ∧ (mergeOf l).sum = ((points l).map (·.2)).sum ∧
-    SelSpec RMin keyVT l (mergeOf l).min ∧ SelSpec RMax keyVT l (mergeOf l).max ∧
-    SelSpec RFirst keyTV l (mergeOf l).first ∧ SelSpec RLast keyTV l (mergeOf l).last :=
-  ⟨mergeOf_count l, mergeOf_sum l, mergeOf_min_spec l, mergeOf_max_spec l, mergeOf_first_spec l, mergeOf_last_spec l⟩
+    (mergeOf ty l).count = (points l).length ∧ (mergeOf ty l).sum = ((points l).map (·.2)).sum ∧
+    SelSpec RMin keyVT l (mergeOf ty l).min ∧ SelSpec RMax keyVT l (mergeOf ty l).max ∧
+    SelSpec (RFirst ty) keyTV l (mergeOf ty l).first ∧ SelSpec RLast keyTV l (mergeOf ty l).last :=
+  ⟨mergeOf_count ty l, mergeOf_sum ty l, mergeOf_min_spec ty l, mergeOf_max_spec ty l, mergeOf_first_spec ty l, mergeOf_last_spec ty l⟩
 
 /-- the rows of the plain select are sorted by time, so the scan-order record is that record. -/
 theorem aggRows_meaning {d : SeriesData} (hw : d.WF) {lo hi : Int} (hk : NoKeyTwiceIn lo hi d) :
-    aggRows lo hi d = mergeOf (((containers d).map (fun c => c.filter (inRange lo hi))).flatten) :=
+    aggRows lo hi d = mergeOf d.ty (((containers d).map (fun c => c.filter (inRange lo hi))).flatten) :=
   aggRows_eq_mergeOf hw hk
 
 /-- a group of series (GROUP BY tag, or none): merging the per-series answers is the record of
 all the rows of the group. -/
 theorem group_answer (series : List (List Row)) :
-    (series.map mergeOf).foldl Stats.merge {} = mergeOf series.flatten := (mergeOf_flatten series).symm
+    (series.map (mergeOf ty)).foldl (Stats.merge ty) {} = mergeOf ty series.flatten := (mergeOf_flatten ty series).symm
 
 end OG.C09
